@@ -28,6 +28,10 @@ type Emitter struct {
 	// same conjunction (they are: the facts and the terms over an atom are in one cone).
 	Refined bool
 	Prefix  string
+	// DefMode: atoms produced by the field-mode hooks are printed by their contracts instead of
+	// as free variables: reduce / muladd atoms as (mod <exact Def> p), inverse atoms as the
+	// uninterpreted function invGL of their operand.
+	DefMode bool
 	AtomsSeen   []*Term
 }
 
@@ -35,9 +39,9 @@ type Emitter struct {
 // declarations of em: atoms already declared by em are not declared again, every node defined by
 // the fork gets the given name prefix. Used to print a second copy of a DAG under a substitution.
 func (em *Emitter) Fork(prefix string, subst map[*Term]*Term) *Emitter {
-	f := &Emitter{names: map[*Term]string{}, ufs: em.ufs, Lift: em.Lift, Unfold: em.Unfold, Subst: subst, NoAtomRange: em.NoAtomRange, Refined: em.Refined, Prefix: prefix}
+	f := &Emitter{names: map[*Term]string{}, ufs: em.ufs, DefMode: em.DefMode, Lift: em.Lift, Unfold: em.Unfold, Subst: subst, NoAtomRange: em.NoAtomRange, Refined: em.Refined, Prefix: prefix}
 	for t, n := range em.names {
-		if t.Op == OpAtom || t.Op == OpConst {
+		if t.Op == OpConst || (t.Op == OpAtom && !(em.DefMode && (t.Def != nil || (t.Kind == "inverse" && len(t.Aux) == 1)))) {
 			f.names[t] = n
 		}
 	}
@@ -88,6 +92,15 @@ func (em *Emitter) resolve(t *Term) *Term {
 }
 
 func (em *Emitter) kids(cur *Term) []*Term {
+	if cur.Op == OpAtom && em.DefMode {
+		if cur.Def != nil {
+			return []*Term{cur.Def}
+		}
+		if cur.Kind == "inverse" && len(cur.Aux) == 1 {
+			return []*Term{cur.Aux[0]}
+		}
+		return nil
+	}
 	if cur.Op == OpAtom {
 		if em.Lift && cur.Def != nil && em.Unfold != nil && em.Unfold(cur) {
 			return []*Term{cur.Def}
@@ -141,6 +154,21 @@ func (em *Emitter) define(t *Term, kids []*Term) {
 		}
 		return
 	case OpAtom:
+		if len(kids) == 1 && em.DefMode {
+			name := fmt.Sprintf("%sd%d", em.Prefix, t.ID)
+			k := em.names[em.resolve(kids[0])]
+			if t.Def != nil {
+				fmt.Fprintf(&em.sb, "(define-fun %s () Int (mod %s %s))\n", name, k, P)
+			} else {
+				if !em.ufs["invGL"] {
+					em.ufs["invGL"] = true
+					em.sb.WriteString("(declare-fun invGL (Int) Int)\n")
+				}
+				fmt.Fprintf(&em.sb, "(define-fun %s () Int (invGL %s))\n", name, k)
+			}
+			em.names[t] = name
+			return
+		}
 		if len(kids) == 1 { // unfolded definitional atom
 			em.names[t] = em.names[em.resolve(kids[0])]
 			return
